@@ -57,7 +57,10 @@ if not getattr(langenc, "_c18_extended", False):
         if e[0] == "selfcall":
             return "self." + e[1] + "()"
         if e[0] == "slice":
-            return proggen.expr_src(e[1]) + "[" + ":".join("" if b is None else proggen.expr_src(b) for b in e[2:5]) + "]"
+            base = proggen.expr_src(e[1])
+            if e[1][0] == "filter":          # `x|items[..]` does not parse: a subscript follows a primary only
+                base = "(" + base + ")"
+            return base + "[" + ":".join("" if b is None else proggen.expr_src(b) for b in e[2:5]) + "]"
         return _src_expr(e)
 
     def src_stmt(st):
